@@ -55,6 +55,8 @@ type Config struct {
 	Params        map[string]int64
 	Redirects     map[string]string // repo function (ssa String()) -> harness function name in the same package
 	Progress      bool
+	ExactFloat    bool // float + - * / as SMT FloatingPoint operations (small obligations only)
+	AbstractConv  bool // int<->float and float<->float conversions as uninterpreted functions
 	// Prefix restricts exploration to paths whose first decisions equal Prefix
 	// (used to split one obligation over several workers). Decisions are alt values.
 	Prefix []int
@@ -94,6 +96,7 @@ type Interp struct {
 	Asserts   int
 	Completed int
 	Truncated bool
+	HarnessPkg *ssa.Package
 	EndSamples   [][]uint64
 	CoverSamples map[string][]NondetVal
 
@@ -605,9 +608,16 @@ func (in *Interp) callBody(fn *ssa.Function, args []Value) Value { return in.cal
 
 func (in *Interp) callBodyB(fn *ssa.Function, args []Value, binds []Value) Value {
 	name := fnName(fn)
-	if rd, ok := in.cfg.Redirects[name]; ok && fn.Pkg != nil {
-		if h := fn.Pkg.Func(rd); h != nil {
-			return in.call(h, args, nil)
+	if rd, ok := in.cfg.Redirects[name]; ok {
+		if in.HarnessPkg != nil {
+			if h := in.HarnessPkg.Func(rd); h != nil {
+				return in.call(h, args, nil)
+			}
+		}
+		if fn.Pkg != nil {
+			if h := fn.Pkg.Func(rd); h != nil {
+				return in.call(h, args, nil)
+			}
 		}
 		in.abort("unsupported", "redirect target not found: "+rd)
 	}
